@@ -177,6 +177,13 @@ func (ca *CertificateAuthority) Finalize(ctx context.Context, m styp.Certificate
 			manifestChanges = true
 			switch n := name.(type) {
 			case *overwritten:
+				// Keeping going past a certificate that may not be replaced is no option for a key that
+				// newly becomes primary: its manifest entry would keep naming the certificate of another key.
+				if n.skipped && mut.primarySigningVersion != nil && *mut.primarySigningVersion == keyVersionName &&
+					cached.PrimarySigningKeyVersionName != keyVersionName {
+					return fmt.Errorf("certificate for new primary signing key %q was not written: object %q exists, overwrite not enabled",
+						keyVersionName, n.name)
+				}
 				names = append(names, n.name)
 			}
 		}
@@ -338,6 +345,8 @@ func certPemBytes(cert *x509.Certificate) []byte {
 
 type overwritten struct {
 	name string
+	// skipped is true when the existing object was left as it is (keep-going without overwrite).
+	skipped bool
 }
 
 type newobj struct {
@@ -358,7 +367,7 @@ func (ca *CertificateAuthority) upload(ctx context.Context, manifest *cpb.GCECer
 		name = entry.ObjectPath
 		// Keep going past an object that may not be replaced; with overwrite permission it is replaced.
 		if output.AllowRecoverableError(ctx) && !output.AllowOverwrite(ctx) {
-			return &overwritten{name: name}, nil
+			return &overwritten{name: name, skipped: true}, nil
 		}
 		output.Warningf(ctx, "key version exists in manifest %v -> %v", keyVersionName, entry.GetObjectPath())
 	} else {
